@@ -70,6 +70,7 @@ def c12(tier, rep):
     _rows(rep, 5 if tier == "quick" else 6, (124, 92, 110, 116, 32), (32,), "letter_t", ("count", "text", "col", "ast", "exception"))
     _rows(rep, 4 if tier == "quick" else 5, (124, 92, 8203, 65279, 32), (32,), "invisible", ("count", "text", "col", "ast", "exception"))
     _rows(rep, 5 if tier == "quick" else 6, (124, 101, 769, 32, 3635), (32,), "combining", ("count", "text", "col", "ast", "exception"))
+    _rows(rep, 5 if tier == "quick" else 6, (124, 35, 32, 9, 120), (32,), "hash", ("count", "text", "col", "ast", "exception"))
     E.traces(rep, E.record_all(std_sources(tier, 300, 3000)), "corpus+gen+noisy")
 
 
@@ -321,6 +322,11 @@ def _stream_runs(tier, rep, n_gen):
         rec, raw = S.record_run(f"stream{len(runs)}", srcs[k:k + m], opts)
         runs.append(rec)
         k += m
+    # the limit / look-ahead / state-leaving documents (parses abandoned at the error limit, open doc strings, dialect switches), each run closed by an ordinary source
+    lims = [(n + ".feature", d) for n, d, dl in E.src_limits() if dl == "en" and not E.known_finding_input(d) and len(d) < 20000]
+    for k in range(0, len(lims), 3):
+        rec, raw = S.record_run(f"stream-limits{k}", lims[k:k + 3] + [("plain.feature", "Feature: second\n  Scenario: t\n    Given x\n")], allopts[(k // 3) % 8] if k % 2 else (True, True, True))
+        runs.append(rec)
     return runs
 
 
@@ -369,8 +375,9 @@ def c17(tier, rep):
     d = tempfile.mkdtemp(prefix="verif-c17-")
     try:
         files = []
-        for k, (u, data) in enumerate(S.POOL[:4] + [("crlf.feature", "Feature: c\r\n  Scenario: s\r\n    Given x\r\n")]):
-            p = os.path.join(d, f"{k}-{u}")
+        odd = [(nm, f"Feature: {nm}\n  Scenario: s\n    Given x\n") for nm in ("z[1].feature", "z1.feature", "what?.feature", "whatX.feature", "st*r.feature", "star.feature", "a b.feature", "-x.feature"[1:])]
+        for k, (u, data) in enumerate(S.POOL[:4] + [("crlf.feature", "Feature: c\r\n  Scenario: s\r\n    Given x\r\n")] + odd):
+            p = os.path.join(d, f"{k}-{u}" if k < 5 else u)
             with open(p, "w", encoding="utf8", newline="") as fh:
                 fh.write(data)
             files.append((p, data))
@@ -433,6 +440,7 @@ def c11(tier, rep):
     E.traces(rep, E.record_all(std_sources(tier, 300, 3000) + E.src_generated(40 if q else 600, SEED + 2, MIXED_CASE_DIALECTS)), "corpus+gen+noisy+dialects")
     E.compiler_reuse_pass(rep, std_sources(tier, 100, 1000))
     _default_parser_ids(rep)
+    _user_generators(rep, E.src_corpus() + E.src_limits() + E.src_generated(40 if q else 400, SEED + 3))
     _many_ids(rep, 1200 if q else 4000)
 
 def _all_ids(doc, pickles):
@@ -456,6 +464,95 @@ def _many_ids(rep, n_scenarios):
     """a document that draws several thousand ids: dense, unique, canonical from the first to the last (compared with the specification's ids)"""
     text = "Feature: many\n" + "".join(f"  Scenario: s{i}\n    Given x{i}\n" for i in range(n_scenarios))
     E.traces(rep, E.record_all([(f"many-ids:{n_scenarios}", text, "en")]), "many-ids")
+
+
+def _user_generators(rep, sources):
+    """"All ids handed out for one id generator": a generator of the user's own (a subclass overriding get_next_id; an object that only has get_next_id;
+    a generator bound to the builder / compiler after construction) must be the one and only origin of the ids: the result equals the result with the
+    standard generator (which the traces validate against the specification), and every id it handed out appears exactly once."""
+    from gherkin.parser import Parser
+    from gherkin.ast_builder import AstBuilder
+    from gherkin.token_matcher import TokenMatcher
+    from gherkin.pickles.compiler import Compiler
+    from gherkin.stream.id_generator import IdGenerator
+    import sessions as S
+
+    class Sub(IdGenerator):
+        def __init__(self):
+            super().__init__()
+            self.mine, self.out = 0, []
+
+        def get_next_id(self):
+            self.mine += 1
+            self.out.append(str(self.mine - 1))
+            return self.out[-1]
+
+    class Duck:
+        def __init__(self):
+            self.mine, self.out = 0, []
+
+        def get_next_id(self):
+            self.mine += 1
+            self.out.append(str(self.mine - 1))
+            return self.out[-1]
+
+    def run(make):
+        """make() -> (parser, compiler, generator)"""
+        try:
+            parser, comp, g = make()
+            d = parser.parse(s, TokenMatcher(dialect))
+            d["uri"] = "u"
+            pk = comp.compile(d)
+            return ("ok", d, pk), (g.out if hasattr(g, "out") else None)
+        except Exception as x:  # noqa: BLE001
+            return ("exception", type(x).__name__, str(x)[:300]), None
+
+    def standard():
+        g = IdGenerator()
+        return Parser(AstBuilder(g)), Compiler(g), g
+
+    def subclass():
+        g = Sub()
+        return Parser(AstBuilder(g)), Compiler(g), g
+
+    def duck():
+        g = Duck()
+        return Parser(AstBuilder(g)), Compiler(g), g
+
+    def rebound():
+        g = Sub()
+        parser, comp = Parser(), Compiler()
+        parser.ast_builder.id_generator = g
+        comp.id_generator = g
+        return parser, comp, g
+
+    def rebound_after_use():
+        g = Sub()
+        parser, comp = Parser(AstBuilder(IdGenerator())), Compiler(IdGenerator())
+        w = parser.parse("Feature: warm up\n  Scenario: s\n    Given x\n      | a |\n")
+        w["uri"] = "w"
+        comp.compile(w)
+        parser.ast_builder.id_generator = g
+        comp.id_generator = g
+        return parser, comp, g
+
+    for name, s, dialect in sources:
+        if E.known_finding_input(s):
+            continue
+        ref, _ = run(standard)
+        for how in (subclass, duck, rebound, rebound_after_use):
+            got, out = run(how)
+            rep.case(("user-generator", how.__name__, s))
+            if got != ref:
+                rep.violation({"kind": "user-generator"}, {"engine": "user-generator", "what": "with an id generator of the user's own (" + how.__name__ + ") the result differs from "
+                                                           "the result with the standard generator", "source": s, "standard": str(ref)[:300], "own": str(got)[:300]})
+                break
+            if out is not None:
+                ids = [str(i) for i in _all_ids(got[1], got[2])]
+                if sorted(ids) != sorted(out):
+                    rep.violation({"kind": "user-generator-ids"}, {"engine": "user-generator", "what": "the ids in document and pickles are not exactly the ids the user's generator (" +
+                                                                   how.__name__ + ") handed out", "source": s, "handed_out": len(out), "present": len(ids)})
+                    break
 
 
 def _default_parser_ids(rep):
@@ -583,7 +680,7 @@ def c13(tier, rep):
                          "replayed; plus menu sequences with rejected outcomes and corpus/generated traces")
     q = tier == "quick"
     E.grow(rep, M.DOCSTRING, [([1, 2, 3, 4], 3 if q else 4), ([1, 2, 3, 5], 3 if q else 4), ([1, 2, 3, 6], 2 if q else 3), ([1, 2, 3, 7], 2 if q else 3),
-                              ([1, 18, 3, 4], 2), ([1, 19, 3, 5], 2), ([1, 21, 18, 3, 4], 2), ([1, 2, 3, 7, 17, 7, 3, 4], 2)],
+                              ([1, 18, 3, 4], 2), ([1, 19, 3, 5], 2), ([1, 21, 18, 3, 4], 2), ([1, 2, 3, 7, 17, 7, 3, 4], 2), ([1, 2, 3, 25], 2), ([1, 2, 3, 26], 2)],
            invariants=["Inv_C13"], label="docstring", no_free_text=False)
     E.menu(rep, M.DOCSTRING[:15], 3 if q else 4, max_errs=2, invariants=["Inv_C13"], label="docstring-any")
     E.reuse_pass(rep, E.src_limits() + E.src_corpus() + E.src_limits(), "reuse")
@@ -633,6 +730,8 @@ def c15(tier, rep):
     # the standard limit / look-ahead / state-leaving documents, twice, through one re-used parser and matcher
     lim = E.src_limits()
     E.reuse_pass(rep, lim + lim[::-1] + lim, "reuse-limits")
+    E.reuse_pass(rep, lim + lim[::-1] + lim, "reuse-limits-french-default", default="fr")
+    E.compiler_reuse_pass(rep, lim + lim[::-1], "compiler-reuse-limits")
     # determinism across processes: the same documents in interpreters with different string-hash seeds
     import subprocess, sys as _sys
     probe = ("import sys, json; sys.path.insert(0, sys.argv[1]); sys.path.insert(0, sys.argv[2]); import record as R, engines as E, gen\n"
